@@ -13,12 +13,21 @@
 //! * API calls: what they do to the commit buffer (select: overflow or untouched; the others untouched;
 //!   ack / clear: emptied).
 //!
-//! Character counts are "one character per symbol" EXCEPT for a syllable the dictionary has no word for: every
-//! engine shows it as its Bopomofo spelling (1..4 characters for one symbol: F30 for the simple engine, the
-//! fallback edge of 43e8036 for the others).  The intervals of the conversion the step committed tell which
-//! symbols are shown that way (`spelling_extra`); the ledger and the conservation check count such an interval
-//! as ONE symbol, the check "display after auto-commit has one character per symbol" is evaluated only when
-//! every remaining syllable has a word (`c02_display_checks_skipped_wordless` otherwise).
+//! Character counts: the conservation law that holds (and that Props/C02.lean proves: `history_ledger*` for states
+//! with a word per syllable) is  committed characters = Σ over the committed symbols of (1 for a symbol shown as one
+//! character, |spelling| for a syllable the dictionary has no word for).  Every engine shows such a syllable as its
+//! Bopomofo spelling (1..4 characters for one symbol: F30 for the simple engine, the fallback of d6d8fbe / 43e8036 for
+//! the others); it gets into the buffer when its only word is forgotten (`unlearn`) or the engine is switched while it
+//! is buffered.  The spelling need not be an interval of its own: `glue_fn` merges it with a neighbour across a glue
+//! gap and a forced selection is taken as it is, so the oracle deals the text of EVERY committed interval to the
+//! symbols it covers (`interval_extra`: one character, or the syllable's own spelling, per symbol).  The intervals are
+//! those the engine answered DURING the step for the buffer before anything was removed (whole commit: the conversion
+//! the commit rendered = `display()` before; overflow: the full buffer at overflow time), never the state after the
+//! operation.  The running per-session ledger counts symbols, with the same allowance (`extra`).  For operations that
+//! insert nothing the allowance is granted only when C01's class predicate held BEFORE the operation (`note_spelled`):
+//! in an ordinary state the count stays strictly one character per symbol.  The check "display after auto-commit has
+//! one character per symbol" is evaluated only when every remaining syllable has a word
+//! (`c02_display_checks_skipped_wordless` otherwise).
 use crate::step::*;
 use chewing::editor::keyboard::KeyCode;
 use std::cell::RefCell;
